@@ -554,7 +554,7 @@ def run_process(
         with entropy_seam(int(scn["seeds"]["entropy"]) + 1000 * proc_no, trace) as es:
             try:
                 # ---------------- build the instance ----------------
-                if resume is not None and resume[0] == "resume_from_file":
+                if resume is not None and resume[0] in ("resume_from_file", "resume_from_file_kwargs"):
                     A = Aspire.resume_from_file(
                         file_path,
                         log_likelihood=SimLikelihood(model),
@@ -627,7 +627,7 @@ def run_process(
                     skw["checkpoint_callback"] = _cb
                     if ck.get("every") is not None:
                         skw["checkpoint_every"] = ck["every"]
-                if resume is not None and resume[0] != "resume_from_file":
+                if resume is not None and resume[0] not in ("resume_from_file", "resume_from_file_kwargs"):
                     route, payload = resume
                     if route == "bytes":
                         skw["resume_from"] = payload
@@ -643,6 +643,20 @@ def run_process(
                     before_sample(A, res)
 
                 def _do_sample():
+                    if resume is not None and resume[0] == "resume_from_file_kwargs":
+                        # the documented constructor takes the sampling arguments itself (resume_kwargs) and the call that
+                        # continues the run names nothing but what sample_posterior has as parameters of its own
+                        rk = dict(skw)
+                        if user_rng is not None and sampler_name not in ("importance", "emcee_smc"):
+                            rk["rng"] = rng_arg
+                        if ck["mode"] in ("path", "auto"):
+                            rk["checkpoint_every"] = ck["every"]
+                        A2 = Aspire.resume_from_file(file_path, log_likelihood=SimLikelihood(model), log_prior=SimPrior(model),
+                                                     resume_kwargs=rk)
+                        res.aspire = A2
+                        cur["aspire"] = A2
+                        trace.log("resume_kwargs_route", keys=sorted(rk))
+                        return A2.sample_posterior(return_history=True, **call_kw)
                     if scn.get("api", "aspire") == "aspire":
                         kw = dict(call_kw)
                         kw.update(skw)
@@ -746,6 +760,8 @@ def run_process(
         _restore_seam(prev_seam)
         FileSeam.restore(prev_fseam)
 
+    if cur.get("aspire") is not None:
+        A = cur["aspire"]
     smp = None if A is None else (cur["sampler"] or A.sampler)
     res.sampler = smp
     if smp is not None:
